@@ -8,16 +8,22 @@
 (*                                                                          *)
 (* Logical state (what property C29 talks about)                            *)
 (*   node  live nodes: id -> [labels, vec : property -> 2-D integer vector  *)
-(*         (properties without a vector are absent), gen : incarnation]     *)
+(*         (properties without a vector are absent)]                        *)
 (*   idx   declared indexes: <<label, property>> -> metric                  *)
 (* Implementation-shaped state                                              *)
-(*   ent   <<label, property>> -> set of entries [id, gen, v, at]: every    *)
+(*   ent   <<label, property>> -> set of entries [id, v, at, st]: every     *)
 (*         add_vector call since the index was registered / rebuilt         *)
-(*         (VectorIndex::stored_vectors; `at` = logical time of the call).  *)
+(*         (VectorIndex::stored_vectors; `at` = logical time of the call,   *)
+(*         which keeps repeated additions apart).  st says what the entry   *)
+(*         is worth NOW: "cur" = the current vector of a node that carries  *)
+(*         label and property, "stale" = superseded / label or vector gone  *)
+(*         / added twice, of a node that still exists, "dead" = of a        *)
+(*         deleted node (whose id may meanwhile name another node).         *)
 (*   clk   logical time, one tick per mutator call                          *)
-(* The ideal search does not look at `ent` except for its size (the exact-  *)
-(* search threshold); the deviation actions do: they describe WHICH of the  *)
-(* physically kept entries the pinned tree still searches.                  *)
+(* An ideal index holds exactly the "cur" entries.  The ideal search does   *)
+(* not look at `ent` except for its size (the exact-search threshold); the  *)
+(* deviations do: they say WHICH of the entries that should be gone the     *)
+(* pinned tree still searches.                                              *)
 (*                                                                          *)
 (* Distances are compared exactly in integer arithmetic: L2 by squared      *)
 (* distance, inner product by the product, cosine by cross-multiplication   *)
@@ -58,25 +64,32 @@ Eligible(key) == {n \in Live : key[1] \in node[n].labels /\ key[2] \in DOMAIN no
 
 VInit == node = <<>> /\ idx = <<>> /\ ent = <<>> /\ clk = 0
 
-Entry(n, g, v, t) == [id |-> n, gen |-> g, v |-> v, at |-> t]
-
-\* add_vector(label, prop, id, v) for every label in Ls and every property in DOMAIN vs;
-\* silently dropped when no such index is registered (manager.rs add_vector)
-Added(Ls, n, g, vs, t) ==
-    [key \in DOMAIN ent |->
-        IF key[1] \in Ls /\ key[2] \in DOMAIN vs
-        THEN ent[key] \cup {Entry(n, g, vs[key[2]], t)}
-        ELSE ent[key]]
+Entry(n, v, t, st) == [id |-> n, v |-> v, at |-> t, st |-> st]
 
 Restrict(f, S) == [x \in S |-> f[x]]
 Put(f, x, y) == [z \in DOMAIN f \cup {x} |-> IF z = x THEN y ELSE f[z]]
+
+\* entries of node n that stop being current in the indexes selected by Hit(key)
+Retire(en, n, Hit(_), st) ==
+    [key \in DOMAIN en |->
+        IF Hit(key)
+        THEN {IF e.id = n /\ e.st = "cur" THEN [e EXCEPT !.st = st] ELSE e : e \in en[key]}
+        ELSE en[key]]
+
+\* add_vector(label, prop, id, v) for every label in Ls and every property in DOMAIN vs;
+\* silently dropped when no such index is registered (manager.rs add_vector)
+Added(en, Ls, n, vs, t) ==
+    [key \in DOMAIN en |->
+        IF key[1] \in Ls /\ key[2] \in DOMAIN vs
+        THEN en[key] \cup {Entry(n, vs[key[2]], t, "cur")}
+        ELSE en[key]]
 
 \* ---- GraphStore::create_node_with_properties (labels, {prop: Vector}) ----
 CreateNode(n, Ls, vs) ==
     /\ n \notin Live
     /\ clk' = clk + 1
-    /\ node' = Put(node, n, [labels |-> Ls, vec |-> vs, gen |-> clk + 1])
-    /\ ent' = Added(Ls, n, clk + 1, vs, clk + 1)
+    /\ node' = Put(node, n, [labels |-> Ls, vec |-> vs])
+    /\ ent' = Added(ent, Ls, n, vs, clk + 1)
     /\ UNCHANGED idx
 
 \* ---- set_node_property(n, p, Vector v): create or UPDATE the vector ----
@@ -84,7 +97,8 @@ SetVector(n, p, v) ==
     /\ n \in Live
     /\ clk' = clk + 1
     /\ node' = [node EXCEPT ![n].vec = Put(@, p, v)]
-    /\ ent' = Added(node[n].labels, n, node[n].gen, (p :> v), clk + 1)
+    /\ LET Hit(key) == key[2] = p
+       IN  ent' = Added(Retire(ent, n, Hit, "stale"), node[n].labels, n, (p :> v), clk + 1)
     /\ UNCHANGED idx
 
 \* ---- set_node_property(n, p, <not a vector>) / remove_node_property(n, p):
@@ -93,15 +107,17 @@ DropVector(n, p) ==
     /\ n \in Live
     /\ clk' = clk + 1
     /\ node' = [node EXCEPT ![n].vec = Restrict(@, DOMAIN @ \ {p})]
-    /\ UNCHANGED <<idx, ent>>
+    /\ LET Hit(key) == key[2] = p IN ent' = Retire(ent, n, Hit, "stale")
+    /\ UNCHANGED idx
 
 \* ---- add_label_to_node: LabelAdded carries every property of the node (also when the
-\* ---- node already had the label) ----
+\* ---- node already had the label: the same vector is then added a second time) ----
 AddLabel(n, lab) ==
     /\ n \in Live
     /\ clk' = clk + 1
     /\ node' = [node EXCEPT ![n].labels = @ \cup {lab}]
-    /\ ent' = Added({lab}, n, node[n].gen, node[n].vec, clk + 1)
+    /\ LET Hit(key) == key[1] = lab
+       IN  ent' = Added(Retire(ent, n, Hit, "stale"), {lab}, n, node[n].vec, clk + 1)
     /\ UNCHANGED idx
 
 \* ---- remove_label_from_node ----
@@ -109,17 +125,20 @@ RemoveLabel(n, lab) ==
     /\ n \in Live
     /\ clk' = clk + 1
     /\ node' = [node EXCEPT ![n].labels = @ \ {lab}]
-    /\ UNCHANGED <<idx, ent>>
+    /\ LET Hit(key) == key[1] = lab IN ent' = Retire(ent, n, Hit, "stale")
+    /\ UNCHANGED idx
 
-\* ---- delete_node ----
+\* ---- delete_node: every entry of the node (current or already stale) is now of a dead node ----
 DeleteNode(n) ==
     /\ n \in Live
     /\ clk' = clk + 1
     /\ node' = Restrict(node, Live \ {n})
-    /\ UNCHANGED <<idx, ent>>
+    /\ ent' = [key \in DOMAIN ent |->
+                 {IF e.id = n /\ e.st # "dead" THEN [e EXCEPT !.st = "dead"] ELSE e : e \in ent[key]}]
+    /\ UNCHANGED idx
 
 \* entries a (re)build from the current graph produces: one per eligible node
-Built(key, t) == {Entry(n, node[n].gen, node[n].vec[key[2]], t) : n \in Eligible(key)}
+Built(key, t) == {Entry(n, node[n].vec[key[2]], t, "cur") : n \in Eligible(key)}
 
 \* ---- create_vector_index: registers a FRESH EMPTY index (replacing one of the same key).
 \* ---- Callers that declare an index over data that already exists follow it with
@@ -152,13 +171,16 @@ Rebuild ==
 \* ---------------------------------------------------------------------------
 Min2(a, b) == IF a < b THEN a ELSE b
 
+\* (\E x \in {e} : P(x) is LET x == e IN P(x) with e evaluated once: TLC re-evaluates a LET
+\* definition at every use)
 TopK(items, metric, q, k, res) ==
-    LET rank(e) == Cardinality({f \in items : Less(metric, q, f.v, e.v)})
-        K == Min2(k, Cardinality(items))
-        \* number of items of id x whose class covers position p
-        supply(x, r) == Cardinality({f \in items : f.id = x /\ rank(f) = r})
-        ranks == {rank(e) : e \in items}
-        size(r) == Cardinality({f \in items : rank(f) = r})
+    \* T: every item paired with its rank
+    \E T \in {{<<Cardinality({f \in items : Less(metric, q, f.v, e.v)}), e>> : e \in items}} :
+    LET K == Min2(k, Cardinality(items))
+        ranks == {t[1] : t \in T}
+        size(r) == Cardinality({t \in T : t[1] = r})
+        \* number of items of node x in the class of rank r
+        supply(x, r) == Cardinality({t \in T : t[1] = r /\ t[2].id = x})
     IN  /\ Len(res) = K
         /\ \A r \in ranks :
              LET pos == {p \in 1..K : r < p /\ p <= r + size(r)} IN
@@ -175,27 +197,32 @@ Sound(items, metric, q, k, res) ==
           \E e \in items, f \in items : e.id = res[i] /\ f.id = res[j] /\ ~Less(metric, q, f.v, e.v)
 
 \* what an ideal index holds: the current vector of every eligible node
-IdealItems(key) == {Entry(n, node[n].gen, node[n].vec[key[2]], 0) : n \in Eligible(key)}
+IdealItems(key) == {Entry(n, node[n].vec[key[2]], 0, "cur") : n \in Eligible(key)}
 
 \* physically kept entries that no longer describe the graph
-IsDead(e) == e.id \notin Live \/ e.gen # node[e.id].gen            \* of a deleted node (its id may have been reused)
-IsCurrent(key, e) ==
-    /\ ~IsDead(e) /\ e.id \in Eligible(key) /\ e.v = node[e.id].vec[key[2]]
-    /\ \A f \in ent[key] : f.id = e.id /\ f.gen = e.gen => f.at <= e.at
-StaleOf(key) == {e \in ent[key] : ~IsDead(e) /\ ~IsCurrent(key, e)}   \* superseded / label or vector gone / duplicate
-DeadOf(key) == {e \in ent[key] : IsDead(e)}
+StaleOf(key) == {e \in ent[key] : e.st = "stale"}   \* superseded / label or vector gone / duplicate
+DeadOf(key) == {e \in ent[key] : e.st = "dead"}     \* of a deleted node (its id may have been reused)
 
 Items(key, seeStale, seeDead) ==
     IdealItems(key) \cup (IF seeStale THEN StaleOf(key) ELSE {}) \cup (IF seeDead THEN DeadOf(key) ELSE {})
+
+\* what the maintenance actions guarantee about the "cur" entries (checked on the design): they are
+\* exactly the ideal items - one per eligible node, holding its current vector
+CurMatchesGraph ==
+    \A key \in DOMAIN idx :
+        LET cur == {e \in ent[key] : e.st = "cur"} IN
+        /\ {<<e.id, e.v>> : e \in cur} = {<<e.id, e.v>> : e \in IdealItems(key)}
+        /\ Cardinality(cur) = Cardinality(Eligible(key))
+        /\ \A e \in ent[key] : e.st = "stale" => e.id \in Live
 
 IsExact(key) == Cardinality(ent[key]) <= ExactMax
 
 \* the answer `res` of vector_search(label, prop, q, k), judged under an implementation that
 \* additionally searches stale / dead entries and/or ranks by cosine whatever was declared
 SearchOKWith(key, q, k, res, seeStale, seeDead, cosineOnly) ==
-    LET items == Items(key, seeStale, seeDead)
-        metric == IF cosineOnly THEN "cosine" ELSE idx[key]
-    IN  IF IsExact(key) THEN TopK(items, metric, q, k, res) ELSE Sound(items, metric, q, k, res)
+    LET metric == IF cosineOnly THEN "cosine" ELSE idx[key] IN
+    \E items \in {Items(key, seeStale, seeDead)} :
+        IF IsExact(key) THEN TopK(items, metric, q, k, res) ELSE Sound(items, metric, q, k, res)
 
 \* ---- C29 ----
 SearchOK(key, q, k, res) == SearchOKWith(key, q, k, res, FALSE, FALSE, FALSE)
@@ -224,5 +251,5 @@ MayNameMissingNode(S, key, q, k) ==
 TypeOK ==
     /\ DOMAIN ent = DOMAIN idx
     /\ \A key \in DOMAIN idx : idx[key] \in Metrics
-    /\ \A n \in Live : node[n].gen <= clk
+    /\ \A key \in DOMAIN ent : \A e \in ent[key] : e.st \in {"cur", "stale", "dead"} /\ e.at <= clk
 =============================================================================
